@@ -307,6 +307,10 @@ where
 #[path = "auto_verif_replays.rs"]
 mod verif_replays;
 
+#[cfg(all(test, feature = "verif-hooks"))]
+#[path = "auto_verif_replays_upgradable.rs"]
+mod verif_replays_upgradable;
+
 #[cfg(test)]
 mod tests {
 
